@@ -109,6 +109,23 @@ def run(ctx):
                 from bluebonnet.fluids import gas as gas_
                 compare("Fluid.gas_FVF", lambda a: fl.gas_FVF(a, tpc_g, ppc_g), lambda x: gas_.b_factor_DAK(T, x, tpc_g, ppc_g), arr, label, dict(**params, Tpc=tpc_g, Ppc=ppc_g))
                 compare("Fluid.gas_viscosity", lambda a: fl.gas_viscosity(a, tpc_g, ppc_g), lambda x: gas_.viscosity_Sutton(T, x, tpc_g, ppc_g, gg), arr, label, dict(**params, Tpc=tpc_g, Ppc=ppc_g))
+        # long arrays (a pressure field of a fine simulation, hourly gauge data): every entry is its own correlation value, whatever
+        # the length of the array
+        if k < (1 if ctx.quick else 4):
+            from bluebonnet.fluids import gas as gas_
+            tpc_g, ppc_g = -72.2, 653.0
+            if 1.05 <= (T + 459.67) / (tpc_g + 459.67) <= 3.0:
+                for nlong in (6001, 20001) if ctx.quick else (6001, 12000, 20001, 40001):
+                    plong = np.sort(rng.uniform(100.0, 9000.0, nlong))
+                    sub = np.concatenate([[0, 1, nlong - 1], rng.choice(nlong, 120, replace=False)])
+                    for nm, arr_call, sc in (("Fluid.gas_FVF", lambda a: fl.gas_FVF(a, tpc_g, ppc_g), lambda x: gas_.b_factor_DAK(T, x, tpc_g, ppc_g)),
+                                             ("Fluid.gas_viscosity", lambda a: fl.gas_viscosity(a, tpc_g, ppc_g), lambda x: gas_.viscosity_Sutton(T, x, tpc_g, ppc_g, gg))):
+                        ev += 1
+                        got_l = np.asarray(arr_call(plong), float)
+                        want_l = np.array([float(sc(float(plong[j_]))) for j_ in sub])
+                        if got_l.shape != plong.shape or not np.allclose(got_l[sub], want_l, rtol=1e-12, atol=0):
+                            bad(f"{nm}: array result differs from the element-wise scalar result (long array)", dict(function=nm, n=nlong, T=T, Tpc=tpc_g, Ppc=ppc_g, dtype="float64"),
+                                dict(max_rel_diff=float(np.abs(got_l[sub] / want_l - 1).max()) if got_l.shape == plong.shape else "shape"))
         # many single-precision pressures through the gas methods (fixed 2026-10: about 7 in 100 000 float32 pressures made the root
         # search of the Z-factor give up with RuntimeError, the rest were solved in single precision): no failure, double-precision values
         if k < (2 if ctx.quick else 10):
